@@ -7,6 +7,7 @@ import (
 
 	"pgregory.net/rapid"
 
+	"github.com/tdakkota/docker-logql/verifharness/mockstore"
 	"github.com/tdakkota/docker-logql/verifharness/model"
 )
 
@@ -25,4 +26,26 @@ func TestDebugC01(t *testing.T) {
 			fmt.Printf("EMPTY n=%d %s\n   first: %q %v\n", len(recs), c.Text, recs[0].Line, recs[0].Labels)
 		}
 	})
+}
+
+// TestDebugQuery evaluates $VERIF_QUERY over a small fixed data set and prints the result.
+func TestDebugQuery(t *testing.T) {
+	q := os.Getenv("VERIF_QUERY")
+	if q == "" {
+		t.Skip()
+	}
+	base := int64(1700000000) * 1e9
+	var recs []model.Rec
+	for i, l := range []map[string]string{{"app": "web", "env": "prod"}, {"app": "web", "env": "dev"}, {"app": "db", "env": "prod"}, {"app": "db"}} {
+		recs = append(recs, model.Rec{TS: base + int64(i)*1e9, Line: "x", Labels: l})
+	}
+	p := model.Params{Start: base + 10e9, End: base + 10e9, Limit: -1}
+	if os.Getenv("VERIF_RANGE") != "" {
+		p = model.Params{Start: base, End: base + 10e9, Step: 2e9, Limit: -1}
+	}
+	pm, m, v, _ := runMetric(recs, mockstore.Caps{}, false, q, p)
+	fmt.Printf("query %s\n  violation: %v\n  kind %s\n", q, v, m.Kind)
+	for k, pts := range pm {
+		fmt.Printf("  {%s} %v\n", k, pts)
+	}
 }
